@@ -3,7 +3,8 @@ import numpy as np
 
 from harness import circgen as cg, logicsim_corr as lc, oracle_net as on, simops_corr as sc, simcheck as sk
 
-THEOREMS = ['C01_lut_correct', 'C01_dispatch2_correct', 'C01_select_prim', 'C01_opcodes_injective', 'C01_lanes']
+THEOREMS = ['C01_lut_correct', 'C01_dispatch2_correct', 'C01_select_prim', 'C01_opcodes_injective', 'C01_lanes',
+            'C01_build_ops_solution', 'C01_solution_unique']
 
 
 def oracle_cycles(c, stim_bits, k):
@@ -28,7 +29,7 @@ def run(ck):
     rng = random.Random(ck.seed * 7919 + 1)
     nrng = np.random.default_rng(ck.seed + 1)
     ncirc = ck.scale(60, 1500)
-    coq_cases, meta, so_cases = [], [], []
+    coq_cases, meta, so_cases, sol_cases = [], [], [], []
     fails = []
     for i in range(ncirc):
         c, a, sims, stim = sk.gen_case(rng, nrng, [0, 3])
@@ -62,6 +63,7 @@ def run(ck):
         if i % 3 == 0:
             _, d = sc.run_impl(c, 1, 1, reuse, strip)
             so_cases.append((c, 1, 1, reuse, strip, d))
+            sol_cases.append(f'sol2_case {cg.coq_netlist(c)} {cg.coq_list((stim[:, 0] == 3).tolist(), lc.b)}')
         if i < 2:
             ck.sample({'nodes': len(c.nodes), 'lines': len(c.lines), 'kinds': sorted(set(n.kind for n in c.nodes))[:8],
                        'sims': sims, 'cycles': k, 'c_reuse': reuse, 'strip_forks': strip})
@@ -83,6 +85,12 @@ def run(ck):
     idx2 = cg.parse_nat_list(out2) if ok2 else None
     ck.obligation(f'Coq model of SimOps.build = sim.SimOps on {len(so_cases)} generated circuits (ops, levels, c_locs, c_caps, c_len)',
                   idx2 == [], 'correspondence', '' if idx2 == [] else f'failing cases {idx2} {out2[-400:]}')
+    ok3, out3 = ck.coq_eval('sol', sc.HEADER.replace('Model.Corr.', 'Model.Corr Model.NetlistSem.') +
+                            'Definition results : list bool := [\n ' + ';\n '.join(sol_cases) + '].\nEval vm_compute in (failing results).\n')
+    idx3 = cg.parse_nat_list(out3) if ok3 else None
+    ck.obligation(f'the model\'s op list executed gate by gate is a solution of the per-node netlist equations on {len(sol_cases)} '
+                  'generated circuits (executable twin of C01_build_ops_solution; guards the hypotheses wf/acyclic against vacuity)',
+                  idx3 == [], 'correspondence', '' if idx3 == [] else out3[-400:])
     ck.obligation(f'Coq model of LogicSim(m=2) s_to_c/c_prop/c_to_s/cycle = implementation on {len(coq_cases)} lanes',
                   allok and not mism, 'correspondence', f'failing cases {mism[:10]}')
     ck.trust('modelled, not verified: SimOps.__init__ and LogicSim s_to_c/c_prop/c_to_s/s_ppo_to_ppi/cycle (hand-written Gallina '
